@@ -16,6 +16,16 @@ RoundOK(mant, k1, k2, k3, neg2, d, digits, nfrac, lastFrac, pad) ==
   /\ (nfrac > 0 => lastFrac # 0)                       \* no trailing zero after the decimal point
   /\ IF neg2 THEN 2 * AbsD(digits * 10^pad * P - mant * 10^d) <= P          \* |text - value| <= 10^-d / 2
              ELSE 2 * AbsD(digits * 10^pad - mant * P * 10^d) <= 1
+\* ---- structure of the GeoJSON output with a bounding box under a digit limit ("unchanged ... including a GeoJSON bounding box
+\* when one is requested"): compared with what the SAME encoder writes without a digit limit.
+\* n = numbers in the box under the limit; nRef = numbers in the box without a limit (-1: that reference is not available, then
+\* any box over the first k >= 2 dimensions of the layout is accepted).
+\* @type: (Int, Int, Int) => Bool;
+BBoxArityOK(n, nRef, stride) == IF nRef >= 0 THEN n = nRef ELSE \E k \in 2..stride : n = 2 * k
+\* an encode error with a box requested is a change only if the encoder does write that box without a digit limit; only a
+\* geometry collection may be refused at all (its members' layouts may have no common box)
+\* @type: (Bool, Bool, Bool) => Bool;
+BBoxEncodeOK(err, coll, errRef) == err => (coll /\ errRef)
 \* with no digit limit the shortest-decimal rendering must parse back to the same float64: the literal lies
 \* within half an ulp of the value (ulp = 2^k for a 53-bit mantissa scaled so that |mant| >= 2^52, or the value is 0)
 \* (the number of fractional digits is passed in two parts, nf1 + nf2, for the same reason as the binary exponent)
@@ -24,4 +34,15 @@ ParsesBack(mant, k1, k2, k3, neg2, digits, nf1, nf2) ==
   LET P == 2^k1 * 2^k2 * 2^k3  T == 10^nf1 * 10^nf2 IN
   IF neg2 THEN 2 * AbsD(digits * P - mant * T) <= T
           ELSE 2 * AbsD(digits - mant * P * T) <= P * T
+\* C18, a literal written WITH an exponent (1e+21, 5e-324: standard JSON / WKT numbers), value digits / 10^(nf1 + nf2) after the
+\* exponent is folded in.  The clauses on the count of fractional digits and on trailing zeros speak about plain decimals and
+\* are not applied.  The distance clause is applied in a weakened form: within half a unit of the d-th decimal place (the
+\* statement) OR within half an ulp of the value (the shortest spelling of a huge float64, which every reader maps back to the
+\* same float64, is accepted although it is not the exact value).  mant as for ParsesBack (53-bit, or a subnormal).
+\* @type: (Int, Int, Int, Int, Bool, Int, Int, Int, Int) => Bool;
+ExpLitOK(mant, k1, k2, k3, neg2, d, digits, nf1, nf2) ==
+  LET P == 2^k1 * 2^k2 * 2^k3  T == 10^nf1 * 10^nf2 IN
+  \/ ParsesBack(mant, k1, k2, k3, neg2, digits, nf1, nf2)
+  \/ IF neg2 THEN 2 * 10^d * AbsD(digits * P - mant * T) <= P * T
+              ELSE 2 * 10^d * AbsD(digits - mant * P * T) <= T
 ====
